@@ -26,9 +26,37 @@ fn open_sink() -> Option<std::fs::File> {
     }
 }
 
-/// Emit one ndjson trace event; a no-op unless `RNACOS_VERIF_TRACE=<file>` is set.
+static MEM_ON: std::sync::atomic::AtomicBool = std::sync::atomic::AtomicBool::new(false);
+
+lazy_static::lazy_static! {
+    static ref MEM: Mutex<Vec<String>> = Mutex::new(Vec::new());
+}
+
+/// Keep emitted events in memory (for an in-process harness) instead of / besides the file sink.
+pub fn enable_mem_trace() {
+    MEM_ON.store(true, Ordering::SeqCst);
+}
+
+/// Drain the in-memory events.
+pub fn take_events() -> Vec<String> {
+    match MEM.lock() {
+        Ok(mut g) => std::mem::take(&mut *g),
+        Err(_) => vec![],
+    }
+}
+
+/// Emit one ndjson trace event; a no-op unless `RNACOS_VERIF_TRACE=<file>` is set
+/// or `enable_mem_trace()` was called.
 /// `fields` must be the inside of a JSON object without braces (may be empty).
 pub fn emit(event: &str, fields: &str) {
+    if MEM_ON.load(Ordering::SeqCst) {
+        if let Ok(mut g) = MEM.lock() {
+            let seq = SEQ.fetch_add(1, Ordering::SeqCst);
+            let sep = if fields.is_empty() { "" } else { "," };
+            g.push(format!("{{\"seq\":{},\"event\":\"{}\"{}{}}}", seq, event, sep, fields));
+        }
+        return;
+    }
     if let Ok(mut guard) = SINK.lock() {
         if let Some(f) = guard.as_mut() {
             let seq = SEQ.fetch_add(1, Ordering::SeqCst);
@@ -59,5 +87,18 @@ impl Handler<DumpSequences> for crate::sequence::core::SequenceDbManager {
             .collect();
         v.sort();
         MessageResult(v)
+    }
+}
+
+/// Pending long-poll listeners of the config actor: (listener id, keys `dataId|group|tenant`).
+#[derive(Message)]
+#[rtype(result = "Vec<(u64, Vec<String>)>")]
+pub struct DumpConfigListeners;
+
+impl Handler<DumpConfigListeners> for crate::config::core::ConfigActor {
+    type Result = MessageResult<DumpConfigListeners>;
+
+    fn handle(&mut self, _msg: DumpConfigListeners, _ctx: &mut Self::Context) -> Self::Result {
+        MessageResult(self.listener.verif_pending())
     }
 }
